@@ -225,6 +225,9 @@ func genC11(g *Gen, idx int) *Plan {
 // ---------------------------------------------------------------------------------------------
 // C12: broker keep-alive kept for connected and sleeping clients
 
+// complianceTol: link-latency jitter between two packets of a client that sends exactly on time.
+const complianceTol = 50 * nsMs
+
 func oracleC12(v *View, vd *Verdict) {
 	for _, sv := range v.Sess {
 		var w stateWalk
@@ -242,7 +245,9 @@ func oracleC12(v *View, vd *Verdict) {
 				if !connected || lastG2B < 0 || ka == 0 {
 					return
 				}
-				if now-lastG2B > ka*3/2+slack(v) {
+				// (the client's own deadlines are judged with complianceTol, as seen from the gateway;
+				// what it may be late by, the broker-side window may be longer by)
+				if now-lastG2B > ka*3/2+complianceTol+slack(v) {
 					// did the client send anything the gateway has to relay (in the state it was in)?
 					// If so the gap means a relay went missing; if not, the gateway simply does not
 					// speak to the broker on the client's behalf.
@@ -262,7 +267,7 @@ func oracleC12(v *View, vd *Verdict) {
 				if w.st == stAsleep || w.st == stAwake {
 					allowed = int64(w.sleepDur) * 1000 * nsMs
 				}
-				if lastC2G >= 0 && allowed > 0 && e.T-lastC2G > allowed+50*nsMs {
+				if lastC2G >= 0 && allowed > 0 && e.T-lastC2G > allowed+complianceTol {
 					break // not compliant from here on: nothing more is owed
 				}
 			}
